@@ -219,6 +219,8 @@ func checkC06(c *Ctx) {
 	c.expectNF(f, "C06.de", "parseIfAfterIfExpr", []string{`if(psCurIs(var:New_TokenType_EOL, psConsume(var:New_TokenType_THEN, #0(p0(p2)))), if(psCurIs(var:New_TokenType_ELSE, psSkipEOL(#0(p1(psSkipEOL(psConsume(var:New_TokenType_THEN, #0(p0(p2)))))))), (#0(p1(psSkipEOL(psConsume(var:New_TokenType_ELSE, psSkipEOL(#0(p1(psSkipEOL(psConsume(var:New_TokenType_THEN, #0(p0(p2))))))))))), newIfElseCall(psTypeVarGen(psConsume(var:New_TokenType_THEN, #0(p0(p2)))), #1(p0(p2)), #1(p1(psSkipEOL(psConsume(var:New_TokenType_THEN, #0(p0(p2)))))), #1(p1(psSkipEOL(psConsume(var:New_TokenType_ELSE, psSkipEOL(#0(p1(psSkipEOL(psConsume(var:New_TokenType_THEN, #0(p0(p2))))))))))))), if(psCurIs(var:New_TokenType_ELIF, psSkipEOL(#0(p1(psSkipEOL(psConsume(var:New_TokenType_THEN, #0(p0(p2)))))))), (#0(parseIfAfterIfExpr(p0, p1, psConsume(var:New_TokenType_ELIF, psSkipEOL(#0(p1(psSkipEOL(psConsume(var:New_TokenType_THEN, #0(p0(p2)))))))))), newIfElseCall(psTypeVarGen(psConsume(var:New_TokenType_THEN, #0(p0(p2)))), #1(p0(p2)), #1(p1(psSkipEOL(psConsume(var:New_TokenType_THEN, #0(p0(p2)))))), exprOnlyBlock(#1(parseIfAfterIfExpr(p0, p1, psConsume(var:New_TokenType_ELIF, psSkipEOL(#0(p1(psSkipEOL(psConsume(var:New_TokenType_THEN, #0(p0(p2))))))))))))), (#0(p1(psSkipEOL(psConsume(var:New_TokenType_THEN, #0(p0(p2)))))), newIfOnlyCall(psTypeVarGen(psConsume(var:New_TokenType_THEN, #0(p0(p2)))), #1(p0(p2)), #1(p1(psSkipEOL(psConsume(var:New_TokenType_THEN, #0(p0(p2)))))))))), if(psCurIs(var:New_TokenType_ELSE, #0(parseInlineBlock(p0, psConsume(var:New_TokenType_THEN, #0(p0(p2)))))), (#0(parseInlineBlock(p0, psConsume(var:New_TokenType_ELSE, #0(parseInlineBlock(p0, psConsume(var:New_TokenType_THEN, #0(p0(p2)))))))), newIfElseCall(psTypeVarGen(psConsume(var:New_TokenType_THEN, #0(p0(p2)))), #1(p0(p2)), #1(parseInlineBlock(p0, psConsume(var:New_TokenType_THEN, #0(p0(p2))))), #1(parseInlineBlock(p0, psConsume(var:New_TokenType_ELSE, #0(parseInlineBlock(p0, psConsume(var:New_TokenType_THEN, #0(p0(p2)))))))))), (#0(parseInlineBlock(p0, psConsume(var:New_TokenType_THEN, #0(p0(p2))))), newIfOnlyCall(psTypeVarGen(psConsume(var:New_TokenType_THEN, #0(p0(p2)))), #1(p0(p2)), #1(parseInlineBlock(p0, psConsume(var:New_TokenType_THEN, #0(p0(p2)))))))))`}, "then/else bodies may start on the same line or after any number of line ends; elif chains recurse; the one-line form ends at the line end")
 	r.Rule("C06.j", "after `=`, `with` and the `->` of a lambda or match rule the parser skips line ends before parsing what follows (what follows may start on the next line); the arrow of a type is the one exception", 10)
 	checkSkipAfterContinuationTokens(c, f, "C06.j")
+	r.Rule("C06.l", "a token beyond a line end is inspected only through psSkipEOL: no function that finds a state's current token to be EOL steps or peeks a fixed number of tokens past it", 1)
+	checkNoBoundedPeekOverLineEnds(c, f, "C06.l")
 	checkRelevantReviewedForms(c, f, "C06.z", "a layout primitive (line-end skipping, columns, offside stack, adjacency)",
 		primSet("psSkipEOL", "psNextNOL", "psCurCol", "psCurOffside", "insideOffside", "isEndOfBlock", "psPushOffside", "psPopOffside", "psNextNonEOLIsBinOp", "psIsNeighborLT", "tkzIsNeighborLT", "tkzNextNOL", "tkzNext"), 30)
 }
